@@ -393,7 +393,8 @@ def load(f, **options):  # type: (typing.IO, **typing.Any) -> canmatrix.CanMatri
                     temp_array = [s.rstrip(',') for s in split]
                     temp_val_table = {}
                     for entry in temp_array:
-                        temp_val_table[entry.split('=')[0].strip()] = entry.split('=')[
+                        # the text of an entry may hold a '=' itself: 2="x=1"
+                        temp_val_table[entry.split('=', 1)[0].strip()] = entry.split('=', 1)[
                             1].replace('"', '').strip()
                     db.add_value_table(val_table_name, temp_val_table)
 
